@@ -45,7 +45,7 @@ def strategy(tier):
         # counter 'w': fragments only mutate the context in place (no name is ever rebound)
         return {'spec': spec, 'ops': ops, 'ks': ks,
                 # counter 'o': an attribute of an ordinary object held in the context
-                'counter': draw(st.sampled_from(['v', 'v', 'w', 'o'])),
+                'counter': draw(st.sampled_from(['v', 'v', 'w', 'o', 'vm'])),
                 'shadow': draw(st.booleans())}
     return cases()
 
